@@ -50,6 +50,45 @@ def live_constants(repo=None):
     return json.loads(p.stdout.strip().splitlines()[-1])
 
 
+def source_literals(repo=None):
+    """String / integer literals the model of `dump` and `_write_fileobject` depends on, read off the live source by
+    AST pattern.  Fail closed: an unexpected shape of the code raises."""
+    import ast
+    repo = repo or common.REPO
+    src = open(os.path.join(repo, "joblib", "numpy_pickle.py"), encoding="utf-8").read()
+    dump = [n for n in ast.parse(src).body if isinstance(n, ast.FunctionDef) and n.name == "dump"]
+    if len(dump) != 1:
+        raise RuntimeError("gen_c03: numpy_pickle.dump not found")
+    dump = dump[0]
+    default = [n for n in dump.body if isinstance(n, ast.Assign) and ast.unparse(n.targets[0]) == "compress_method"
+               and isinstance(n.value, ast.Constant) and isinstance(n.value.value, str)]
+    if len(default) != 1:
+        raise RuntimeError("gen_c03: the default `compress_method = <str>` of dump() was not found")
+    lz4 = [n for n in ast.walk(dump) if isinstance(n, ast.Compare) and ast.unparse(n.left) == "compress_method"
+           and len(n.ops) == 1 and isinstance(n.ops[0], ast.Eq) and isinstance(n.comparators[0], ast.Constant)]
+    if len(lz4) != 1:
+        raise RuntimeError("gen_c03: the `compress_method == <str>` availability test of dump() was not found")
+    rng = [n for n in ast.walk(dump) if isinstance(n, ast.Compare) and ast.unparse(n.left) == "compress_level"
+           and len(n.ops) == 1 and isinstance(n.ops[0], ast.NotIn) and isinstance(n.comparators[0], ast.Call)
+           and ast.unparse(n.comparators[0].func) == "range" and len(n.comparators[0].args) == 1
+           and isinstance(n.comparators[0].args[0], ast.Constant)]
+    if len(rng) != 1:
+        raise RuntimeError("gen_c03: the `compress_level not in range(<int>)` test of dump() was not found")
+    src2 = open(os.path.join(repo, "joblib", "numpy_pickle_utils.py"), encoding="utf-8").read()
+    wf = [n for n in ast.parse(src2).body if isinstance(n, ast.FunctionDef) and n.name == "_write_fileobject"]
+    if len(wf) != 1:
+        raise RuntimeError("gen_c03: _write_fileobject not found")
+    ifs = [n for n in wf[0].body if isinstance(n, ast.If)]
+    if len(ifs) != 1 or ast.unparse(ifs[0].test) not in ("compressmethod in _COMPRESSORS.keys()", "compressmethod in _COMPRESSORS"):
+        raise RuntimeError("gen_c03: unexpected shape of _write_fileobject")
+    subs = [n for n in ast.walk(ast.Module(body=ifs[0].orelse, type_ignores=[])) if isinstance(n, ast.Subscript)
+            and ast.unparse(n.value) == "_COMPRESSORS" and isinstance(n.slice, ast.Constant)]
+    if len(subs) != 1:
+        raise RuntimeError("gen_c03: the fallback compressor of _write_fileobject was not found")
+    return {"default_method": default[0].value.value, "lz4_literal": lz4[0].comparators[0].value,
+            "level_stop": int(rng[0].comparators[0].args[0].value), "fallback_method": subs[0].slice.value}
+
+
 def zlist(xs):
     return "[" + "; ".join(str(int(x)) for x in xs) + "]"
 
@@ -83,12 +122,19 @@ def render(k):
     ops = ["(%d, %s)" % (o["code"], "true" if o["argless"] else "false") for o in k["opcodes"] if o["proto"] <= 1]
     out.append("Definition pickle_ops01 : list (Z * bool) :=\n  [" + "; ".join(ops) + "].")
     out.append("Definition pickle_highest_protocol : Z := %d." % k["highest_protocol"])
+    lit = k["literals"]
+    out.append("(* literals of numpy_pickle.dump / numpy_pickle_utils._write_fileobject, read off the source by AST pattern *)")
+    out.append("Definition dump_default_method : list Z := %s. (* compress_method = %r *)" % (sbytes(lit["default_method"]), lit["default_method"]))
+    out.append("Definition dump_lz4_literal : list Z := %s. (* compress_method == %r and lz4 is None *)" % (sbytes(lit["lz4_literal"]), lit["lz4_literal"]))
+    out.append("Definition dump_level_stop : Z := %d. (* compress_level not in range(%d) *)" % (lit["level_stop"], lit["level_stop"]))
+    out.append("Definition write_fallback_method : list Z := %s. (* _COMPRESSORS[%r] in _write_fileobject's else branch *)" % (sbytes(lit["fallback_method"]), lit["fallback_method"]))
     out.append("")
     return "\n".join(out)
 
 
 def generate(repo=None):
     k = live_constants(repo)
+    k["literals"] = source_literals(repo)
     text = render(k)
     path = os.path.join(common.COQ, "Gen", "C03_Constants.v")
     changed = common.write_if_changed(path, text)
